@@ -279,6 +279,63 @@ func runGeneric(cs GenCase) string {
 	return ""
 }
 
+// runGenericWide: generic methods whose instantiation wrappers are long (stack-passed arguments,
+// a receiver that does not fit registers): Return(v) on one (method, instantiation) replaces that
+// method for direct calls on every instance, leaves the other instantiation and method alone,
+// and Reset restores.
+func runGenericWide(cs GenCase) string {
+	b := mocker.Create()
+	defer func() { vk.Try(func() { b.Reset() }) }()
+	msg, p := vk.Try(func() {
+		switch cs.Method + "/" + cs.Inst {
+		case "Wide/int":
+			b.Struct(&mx.Box[int]{}).Method("Wide").Return(9100)
+		case "Wide/string":
+			b.Struct(&mx.Box[string]{}).Method("Wide").Return(9100)
+		case "Sum/int":
+			b.Struct(mx.Arr[int]{}).Method("Sum").Return(9100)
+		case "Sum/string":
+			b.Struct(mx.Arr[string]{}).Method("Sum").Return(9100)
+		}
+	})
+	if p {
+		return "panic: mocking " + cs.Method + " of the " + cs.Inst + " instantiation panicked: " + vk.Short(msg, 100)
+	}
+	bi, bs := mx.Box[int]{V: 1, N: 31}, mx.Box[string]{V: "s", N: 32}
+	ai, as := mx.Arr[int]{A: [6]int{1, 0, 0, 0, 0, 2}}, mx.Arr[string]{A: [6]int{3, 0, 0, 0, 0, 4}, V: "s"}
+	probes := []struct {
+		method, inst string
+		call         func() int
+		orig         int
+	}{
+		{"Wide", "int", func() int { return mx.WideInt(&bi, 7) }, 31 + 7 + 1 + 3 + 1 + 2 + 600},
+		{"Wide", "string", func() int { return mx.WideString(&bs, 7) }, 32 + 7 + 1 + 3 + 1 + 2 + 600},
+		{"Sum", "int", func() int { return mx.SumInt(ai, 7) }, 1 + 2 + 7 + 700},
+		{"Sum", "string", func() int { return mx.SumString(as, 7) }, 3 + 4 + 7 + 700},
+	}
+	for _, pr := range probes {
+		var got int
+		msg, p := vk.Try(func() { got = pr.call() })
+		if p {
+			return fmt.Sprintf("panic: %s of the %s instantiation panicked: %s", pr.method, pr.inst, vk.Short(msg, 100))
+		}
+		if pr.method == cs.Method && pr.inst == cs.Inst {
+			if got != 9100 {
+				return fmt.Sprintf("not-replaced: %s of the %s instantiation, called directly, returned %d, expected the stubbed 9100", pr.method, pr.inst, got)
+			}
+		} else if got != pr.orig {
+			return fmt.Sprintf("other-affected: %s/%s was not mocked (mocked: %s/%s) but returned %d instead of %d", pr.method, pr.inst, cs.Method, cs.Inst, got, pr.orig)
+		}
+	}
+	b.Reset()
+	for _, pr := range probes {
+		if got := pr.call(); got != pr.orig {
+			return fmt.Sprintf("not-restored: %s/%s returns %d after Reset", pr.method, pr.inst, got)
+		}
+	}
+	return ""
+}
+
 // ---------------------------------------------------------------------------------------------
 // one unexported-method mocker object re-targeted with Method(name)
 
@@ -360,6 +417,26 @@ func extraCases(c *vk.Ctx, base int64) {
 				if f != "" {
 					c.Violate(fmt.Sprintf("generic-receiver method=%s inst=%s how=%s class=%s", m, inst, how, f[:indexByte(f, ':')]), f, cs)
 				}
+			}
+		}
+	}
+	for _, m := range []string{"Wide", "Sum"} {
+		for _, inst := range []string{"int", "string"} {
+			mine := c.Mine(idx)
+			idx++
+			if !mine || c.Full() {
+				continue
+			}
+			cs := GenCase{true, m, inst, "return"}
+			f := runGenericWide(cs)
+			n++
+			c.Res.Evaluations++
+			c.Res.Traces++
+			c.Res.States++
+			c.Res.Transitions += 10
+			c.Distinct(fmt.Sprint(cs))
+			if f != "" {
+				c.Violate(fmt.Sprintf("generic-receiver method=%s inst=%s how=return class=%s", m, inst, f[:indexByte(f, ':')]), f, cs)
 			}
 		}
 	}
